@@ -122,10 +122,10 @@ def fitBodyW (c : Cfg) (a : Args) : Out :=
 /-- `strides` as the table really holds them: `uint64_t` products -/
 def stridesOfW (naxes : List Nat) : List Nat := (stridesOf naxes).map (· % U64)
 
-/-- the number of cells of the coefficient array `fit` allocates: `strides[0]*naxes[0]` in `uint64_t` -/
-def ncoeffsW (a : Args) : Nat := prodL ((List.range a.data.ndim).map a.nsplAt) % U64
-/-- … and the number of coefficients the table's `naxes` describe -/
+/-- the number of coefficients the table's `naxes` describe -/
 def ncoeffs (a : Args) : Nat := prodL ((List.range a.data.ndim).map a.nsplAt)
+/-- … and the number of cells of the coefficient array `fit` allocates: `strides[0]*naxes[0]` in `uint64_t` -/
+def ncoeffsW (a : Args) : Nat := ncoeffs a % U64
 
 def fitShapeW (a : Args) : Shape := { fitShape a with strides := stridesOfW (fitShape a).naxes }
 
